@@ -361,48 +361,6 @@ func c11NearPrefixList(r *Rng, paths []string, side byte) []string {
 
 // ---- FilterOpt with FollowPaths: the include list NewFilterFS assembles is order-sensitive ----
 
-// c11Dedupe: reference copy of followlinks.go dedupePaths (keeps order; drops an element textually
-// below an element kept before; nil when an element is "."), used only to DELIMIT the generator's
-// domain (see c11SameVerdicts), never as an oracle.
-func c11Dedupe(in []string) []string {
-	out := make([]string, 0, len(in))
-loop:
-	for _, s := range in {
-		if s == "." {
-			return nil
-		}
-		for _, o := range out {
-			if strings.HasPrefix(s, o+"/") {
-				continue loop
-			}
-		}
-		out = append(out, s)
-	}
-	return out
-}
-
-// c11SameVerdicts: the real library gives the same MatchesOrParentMatches verdict for both include
-// lists on every path (an empty list = no include matcher = everything)
-func c11SameVerdicts(a, b []string, paths []string) bool {
-	verdict := func(l []string) func(string) bool {
-		if len(l) == 0 {
-			return func(string) bool { return true }
-		}
-		pm, err := patternmatcher.New(l)
-		if err != nil {
-			return func(string) bool { return true }
-		}
-		return func(p string) bool { m, _ := pm.MatchesOrParentMatches(p); return m }
-	}
-	va, vb := verdict(a), verdict(b)
-	for _, p := range paths {
-		if va(p) != vb(p) {
-			return false
-		}
-	}
-	return true
-}
-
 // c11FollowView: a view with hard-link groups in which some entries are symlinks to entries that
 // exist (files and directories, relative and absolute targets)
 func c11FollowView(r *Rng, names []string) []*MNode {
@@ -530,25 +488,16 @@ func c11FollowCase(r *Rng, v []*MNode, classes map[string]int) (inc, exc, follow
 	return inc, exc, follow
 }
 
-// c11FollowDomain: 0 = to be emitted; 1 = late-shadow domain (K1); 2 = dedupePaths changes the
-// verdict of the include list on a path of the view (finding dedupe-order-sensitive-includes)
-func c11FollowDomain(v []*MNode, inc, exc, follow []string) int {
+// c11FollowInDomain: false = late-shadow domain (K1) of the list handed to the matcher
+// (user patterns in order, then the targets the real FollowLinks returns) or of the exclude list
+func c11FollowInDomain(v []*MNode, inc, exc, follow []string) bool {
 	paths := viewPaths(v)
 	fl := c18Follow(&c18FS{m: &MemFS{Roots: v}}, follow)
-	stated := append(append([]string{}, inc...), c11Targets(fl)...)
-	handed := stated
+	stated := inc
 	if len(fl.L) == 3 && fl.L[0].U64() == 0 && !fl.L[1].IsTrue() {
-		handed = c11Dedupe(stated)
-	} else {
-		stated, handed = inc, inc
+		stated = append(append([]string{}, inc...), c11Targets(fl)...)
 	}
-	if !c11ModesAgree(stated, paths) || !c11ModesAgree(handed, paths) || !c11ModesAgree(exc, paths) {
-		return 1
-	}
-	if !c11SameVerdicts(stated, handed, paths) {
-		return 2
-	}
-	return 0
+	return c11ModesAgree(stated, paths) && c11ModesAgree(exc, paths)
 }
 
 // c11Plain: the entries hardlinkFilter.Walk and the Hardlinks validator look at: everything that is
@@ -876,7 +825,6 @@ func genC11(g *Gen) {
 	}
 	// FilterOpt combining IncludePatterns (with '!' exceptions after positive patterns), ExcludePatterns
 	// and FollowPaths: Walk + Open + validators (kind 1104) and the transfer (kind 1102 with follow)
-	skippedDedupe := 0
 	nf := g.Vol(900, 16000)
 	for i := 0; i < nf; i++ {
 		r := g.Rng
@@ -889,12 +837,8 @@ func genC11(g *Gen) {
 		if len(follow) == 0 {
 			continue
 		}
-		switch c11FollowDomain(v, inc, exc, follow) {
-		case 1:
+		if !c11FollowInDomain(v, inc, exc, follow) {
 			skippedK1++
-			continue
-		case 2:
-			skippedDedupe++
 			continue
 		}
 		exception := false
@@ -922,7 +866,6 @@ func genC11(g *Gen) {
 	}
 	g.Note("c11_pattern_classes", classes)
 	g.Note("c11_skipped_late_shadow_configurations", skippedK1)
-	g.Note("c11_skipped_dedupe_order_sensitive_configurations", skippedDedupe)
 }
 
 // c11ModesAgree: on every path, patternmatcher's MatchesUsingParentResults handed down from the
